@@ -174,6 +174,8 @@ type gen struct {
 	usedZeroID bool
 	// prev: earlier ADD/REPLACE operations, for re-sends of the same or a reduced payload
 	prev []*spb.AFTOperation
+	// ids that stand in for next-hop index 4 / group id 4 in this run (0: none), see aliasIDs
+	nhAlias, nhgAlias uint64
 }
 
 var aftTypeNums = []int{1, 2, 3, 4, 5, 6}
@@ -817,9 +819,51 @@ func (g *gen) invalidOp() *spb.AFTOperation {
 func (g *gen) batchStep(sess int, ops []*spb.AFTOperation) Step {
 	st := Step{T: "modify", Sess: sess}
 	for _, o := range ops {
+		g.aliasIDs(o)
 		st.Ops = append(st.Ops, opJSON(o))
 	}
 	return st
+}
+
+// aliasIDs: in some runs next-hop index 4 and group id 4 of the everyday key space are replaced,
+// everywhere they occur (keys and references), by an id outside 32 bits: 2^32+3 (equal to key 3
+// in its low 32 bits, so any truncation merges two keys), 2^63 or 2^64-1.
+func (g *gen) aliasIDs(o *spb.AFTOperation) {
+	if g.nhAlias == 0 && g.nhgAlias == 0 {
+		return
+	}
+	nh := func(i uint64) uint64 {
+		if i == 4 && g.nhAlias != 0 {
+			return g.nhAlias
+		}
+		return i
+	}
+	grp := func(v *wpb.UintValue) {
+		if v != nil && v.Value == 4 && g.nhgAlias != 0 {
+			v.Value = g.nhgAlias
+		}
+	}
+	switch t := o.Entry.(type) {
+	case *spb.AFTOperation_NextHop:
+		if t.NextHop != nil {
+			t.NextHop.Index = nh(t.NextHop.Index)
+		}
+	case *spb.AFTOperation_NextHopGroup:
+		if t.NextHopGroup != nil {
+			if t.NextHopGroup.Id == 4 && g.nhgAlias != 0 {
+				t.NextHopGroup.Id = g.nhgAlias
+			}
+			for _, n := range t.NextHopGroup.GetNextHopGroup().GetNextHop() {
+				n.Index = nh(n.Index)
+			}
+		}
+	case *spb.AFTOperation_Ipv4:
+		grp(t.Ipv4.GetIpv4Entry().GetNextHopGroup())
+	case *spb.AFTOperation_Ipv6:
+		grp(t.Ipv6.GetIpv6Entry().GetNextHopGroup())
+	case *spb.AFTOperation_Mpls:
+		grp(t.Mpls.GetLabelEntry().GetNextHopGroup())
+	}
 }
 
 // genG1 produces a single-primary history: modify batches, flushes, hand-overs, gets.
@@ -848,6 +892,15 @@ func genG1(seed uint64, prop string) *Scenario {
 	}
 	sc := &Scenario{Family: "g1", Seed: seed, Cfg: cfg}
 	g := newGen(seed, 0x6732, &sc.Cfg)
+	if g.chance(1, 6) {
+		wide := []uint64{1<<32 + 3, 1 << 63, ^uint64(0)}
+		if g.chance(2, 3) {
+			g.nhAlias = wide[g.pick(3)]
+		}
+		if g.chance(2, 3) {
+			g.nhgAlias = wide[g.pick(3)]
+		}
+	}
 	nsteps := 3 + g.pick(14)
 	if g.chance(1, 5) {
 		nsteps = 1 + g.pick(3) // many short runs
